@@ -248,9 +248,19 @@ func Harness_C15_HostValidatorSet() {
 	}
 	if ok(err, pan) && infoErr == nil && clientID != "" && info.L1ClientId == clientID && newer {
 		verifAssert("a newer set from the configured client is recorded", lastErr1 == nil && lastH1 == height)
-		for _, v := range set.Validators {
+		for i, v := range set.Validators {
 			pk, perr := cryptocodec.FromCmtProtoPublicKey(v.PubKey)
 			if perr != nil {
+				continue
+			}
+			// a validator set names each key once; if a list repeats a key the last entry wins
+			repeated := false
+			for _, w := range set.Validators[i+1:] {
+				if pk2, e2 := cryptocodec.FromCmtProtoPublicKey(w.PubKey); e2 == nil && pk2.Equals(pk) {
+					repeated = true
+				}
+			}
+			if repeated {
 				continue
 			}
 			got, gerr := k.HostValidatorStore.validators.Get(ctx, sdk.ConsAddress(pk.Address()))
